@@ -86,8 +86,11 @@ fn path_id(g: &mut G, id: Uuid) -> (String, Vec<&'static str>, &'static str) {
 
 fn content_type(g: &mut G, right: &str, other: &str) -> (Vec<(String, Vec<u8>)>, Vec<&'static str>, &'static str) {
     let h = |v: Vec<u8>| vec![("content-type".to_string(), v)];
-    let w = [60usize, 6, 5, 5, 6, 6, 5, 3];
+    let w = [60usize, 6, 5, 5, 6, 6, 5, 3, 5, 3];
     match g.r.weighted(&w) {
+        // near misses: the accepted type is a proper prefix of the one sent / the one sent a proper prefix of it
+        8 => (h(format!("{right}{}", g.r.pick(&["-v2", "+json", "s", ".gz", "x", "/2"])).into_bytes()), vec!["ctype"], "suffixed"),
+        9 => (h(right.as_bytes()[..right.len() - 1 - g.r.below(3)].to_vec()), vec!["ctype"], "truncated"),
         0 => (h(right.as_bytes().to_vec()), vec![], "exact"),
         1 => (h(format!("{right}; charset=utf-8").into_bytes()), vec![], "params"),
         2 => (h(format!("  {right} ;q=1").into_bytes()), vec![], "spaces"),
